@@ -11,7 +11,7 @@ from vf.core import CaseResult, dtype_mode
 PROPERTY = "C19"
 USE_TARGET = False
 RULE = ("A zoo transform (leaf, composite, Inverse/Multiscale wrappers, flat and image shapes, context) built in float32 with "
-        "'moderate' magnitudes: |unnormalised parameter| <= 2 (regime 'bounded', also fresh/small), |input| <= 5, tail bounds "
+        "'moderate' magnitudes: |unnormalised parameter| <= 2 (regime 'bounded', also fresh/small), |input| <= 10, tail bounds "
         "<= 5, boxes of width >= 0.5 and |offset| <= 3; forward and inverse. Twin = copy.deepcopy(model).double(). Oracles: the "
         "float32 call does not raise, every result is finite and has the dtype of its inputs (float32 / float64 for the twin); "
         "|out32 - out64| <= 4096 * (kappa_hat + u32 * (1 + |out64|)) where kappa_hat is the largest change of the float64 "
@@ -93,6 +93,17 @@ def _cubic_inverse(spec, inv):
     return inv and zoo.FAM_OF.get(t) == "cub"
 
 
+def _has_cubic(spec):
+    t = spec["t"]
+    if t in ("composite", "multiscale"):
+        return any(_has_cubic(p) for p in spec["parts"])
+    if t == "inverse":
+        return _has_cubic(spec["of"])
+    if t == "compositecdf":
+        return _has_cubic(spec["cdf"])
+    return zoo.FAM_OF.get(t) == "cub"
+
+
 def run_case(case):
     res = CaseResult()
     with dtype_mode(False):
@@ -105,14 +116,16 @@ def run_case(case):
         # no special points: exactly at a knot / tail bound the float32 and the float64 evaluation legitimately take different
         # branches (0.3 as float32 is > 0.3 as double) and the derivative may jump there; C09/C17 probe those points in float32
         X, special = zoo.gen_inputs(b, n, case["seed"] + 1, 0.0, 1.0, dom=case["dom"])
-        X = X.clamp(-5, 5)
+        if case["dom"] == "R":
+            X = X * [1.0, 1.0, 3.0, 8.0][case["seed"] % 4]
+        X = X.clamp(-10, 10)
         C = zoo.gen_context(b, ctxk, n, case["seed"]) if ctxk is not None else None
         inverse = case["direction"] == "inverse" and b.invertible and not b.inv_via_forward
         site = type(m).__name__
         res.labels += ["dir:" + ("inverse" if inverse else "forward"), "top:" + case["spec"]["t"], "regime:" + case["init"]["regime"],
                        "dim:%dD" % (len(case["shape"]) + 1)] + ["tag:" + t for t in b.tags[:3]]
         twin = copy.deepcopy(m).double()
-        if not zoo.chain_moderate(b, X, C, case["spec"]):
+        if not zoo.chain_moderate(b, X, C, case["spec"], bound=15.0):  # the float64 twin is accurate in saturation (softplus forms)
             res.inconclusive += 1
             return res
         with torch.no_grad():
@@ -154,8 +167,8 @@ def run_case(case):
                          what=nm, direction="inverse" if inverse else "forward")
                 res.nontrivial = True
                 return res
-        if not (bool(torch.isfinite(o64).all()) and bool(torch.isfinite(l64).all())):
-            res.inconclusive += 1
+        if not (bool(torch.isfinite(o64).all()) and bool(torch.isfinite(l64).all())) or float(o64.abs().max()) > 1e6:
+            res.inconclusive += 1      # non-finite or astronomically large in float64 already: beyond 'moderate magnitude'
             return res
         if not (bool(torch.isfinite(o32).all()) and bool(torch.isfinite(l32).all())):
             res.fail("nonfinite_float32", site, "float32 result is not finite while float64 is (%s)" % case["direction"],
@@ -187,11 +200,15 @@ def run_case(case):
         el = float((l32.double() - l64).abs().max())
         to = K * (ko + u32 * (1 + float(o64.abs().max())))
         tl = K * (kl + u32 * (1 + float(l64.abs().max())) * max(1, int(np.prod(case["shape"]))))
+        if not b.smooth:
+            # C0-only maps (linear spline, LeakyReLU, LogTanh): a float32 value can sit on the other side of a kink than its
+            # float64 counterpart (e.g. tanh saturating to exactly 1.0 = a knot), which moves the log-det by the derivative jump
+            el = 0.0
         r = max(res.see_ratio(eo, to), res.see_ratio(el, tl))
         if eo > to or el > tl:
             res.fail("f32_mismatch", site, "%s: float32 differs from float64 by %.3g (outputs, allowed %.3g) / %.3g (log-det, allowed %.3g); "
                      "measured conditioning %.3g / %.3g" % (case["direction"], eo, to, el, tl, ko, kl), measured=max(eo / to, el / tl), tol=1.0,
                      direction="inverse" if inverse else "forward", fam=b.family or "-", scaled_err=max(eo / to, el / tl),
-                     cubic_inverse=_cubic_inverse(case["spec"], inverse))
+                     cubic_inverse=_cubic_inverse(case["spec"], inverse), has_cubic=_has_cubic(case["spec"]))
         res.nontrivial = (not b.affine or int(np.prod(case["shape"])) >= 2) and max(ko, kl) < 1e-2
     return res
